@@ -53,7 +53,7 @@ func runC10(c *Ctx) {
 				c.seen(fnName(fn))
 				s := newSym(L, map[string]bool{})
 				s.maxD = 0
-				base := strings.Join(s.eval(fa.X), " | ")
+				base := strings.Join(liftParams(L, gen, fn, s.eval(fa.X)), " | ")
 				fromNode := strings.Contains(base, "internal/kessoku.node.providerSpec(") || strings.Contains(base, "InjectorProviderCallStmt.Provider(")
 				fromDecl := strings.Contains(base, "BuildDirective.Providers(")
 				c.check(fromNode && !fromDecl, "C10.1", fnName(fn)+":"+strings.TrimPrefix(k, "internal/kessoku."), L.pos(u.Pos()),
@@ -254,6 +254,8 @@ func runC10(c *Ctx) {
 	ruleArgumentOnlyWhenUnsupplied(c, "C10.3")
 	ruleRequestedTypeIsPrinted(c, "C10.4")
 	ruleProviderTypeResultsFresh(c, "C10.7")
+	ruleBindAppendsInterface(c, "C10.8")
+	ruleResolutionAfterRegistration(c, "C10.3")
 	// suppliers and requirements meet under one key (otherwise a supplied type becomes a parameter)
 	c09SupplierMap(c, "C10.3")
 	ruleIsContextType(c, "C10.6")
@@ -276,7 +278,29 @@ func c10Emission(c *Ctx) {
 	if fn == nil {
 		return
 	}
-	ruleNoEarlyExit(c, "C10.4", "generateInjectorDecl")
+	// the signature may be built by a private helper of generateInjectorDecl: the rules follow the parameter fields
+	for _, f2 := range family(L, fn) {
+		if f2.Parent() != nil || f2 == fn {
+			continue
+		}
+		for _, b := range f2.Blocks {
+			for _, in := range b.Instrs {
+				if al, ok := in.(*ssa.Alloc); ok {
+					if nm, _ := isAstNodeType(al.Type()); nm == "Field" {
+						s := newSym(L, map[string]bool{})
+						s.maxD = 0
+						for _, st := range storesInto(al) {
+							if fa, ok := st.Addr.(*ssa.FieldAddr); ok && fieldKey(fa) == "go/ast.Field.Names" {
+								fn = f2
+							}
+						}
+					}
+				}
+			}
+		}
+	}
+	c.seen(fnName(fn))
+	ruleNoEarlyExitFn(c, "C10.4", fn)
 	// parameter fields
 	okParam := false
 	var why []string
